@@ -1,10 +1,137 @@
 import DFV.JsonField
+import DFV.Model.C09
 namespace DFV.Drv
-open Lean DFV
+open Lean DFV DFV.C09
 
-/-- driver ops of property C09 (stub: no ops yet) -/
+def hvalToJson : HVal → Json
+  | .num q => Json.arr #[.str "num", ratToJson q]
+  | .nat n => Json.arr #[.str "nat", .num (JsonNumber.fromNat n)]
+  | .str s => Json.arr #[.str "str", .str s]
+
+def hvalOfJson (j : Json) : R HVal := do
+  let a ← arr j
+  match a.toList with
+  | [.str "num", v] => pure (.num (← ratOfJson v))
+  | [.str "nat", v] => pure (.nat (← natOfJson v))
+  | [.str "str", v] => pure (.str (← strOfJson v))
+  | _ => throw s!"bad header value {j.compress}"
+
+def hlineToJson : HLine → Json
+  | .kv k v => Json.arr #[.str "kv", .str k, hvalToJson v]
+  | .other => Json.arr #[.str "other"]
+  | .beginData ws => Json.arr #[.str "data", strsJ ws]
+
+def hlineOfJson (j : Json) : R HLine := do
+  let a ← arr j
+  match a.toList with
+  | [.str "kv", k, v] => pure (.kv (← strOfJson k) (← hvalOfJson v))
+  | [.str "other"] => pure .other
+  | [.str "data", ws] => pure (.beginData (← listOf strOfJson ws))
+  | _ => throw s!"bad header line {j.compress}"
+
+def fileToJson (F : OvfFile Rat) : Json :=
+  Json.mkObj [("first", .str F.first), ("lines", listJ hlineToJson F.lines),
+    ("body", match F.body with
+      | .bin bytes => Json.mkObj [("bin", natsJ bytes)]
+      | .text rows footer => Json.mkObj [("text", listJ ratsJ rows), ("footer", strsJ footer)])]
+
+def fileOfJson (j : Json) : R (OvfFile Rat) := do
+  let first ← strOfJson (← fld j "first")
+  let lines ← listOf hlineOfJson (← fld j "lines")
+  let b ← fld j "body"
+  let body ← match fldOpt b "bin" with
+    | some bs => do pure (Body.bin (← listOf natOfJson bs))
+    | none => do
+      let rows ← listOf (listOf ratOfJson) (← fld b "text")
+      let footer ← match fldOpt b "footer" with
+        | some f => listOf strOfJson f
+        | none => pure []
+      pure (Body.text rows footer)
+  pure { first, lines, body }
+
+/-- `{"mesh":…, "nvdim":k, "data":[flat C order of the (*n, nvdim) array], "vdims":…, "unit":…}` -/
+def ofieldOfJson (j : Json) : R (OField Rat) := do
+  let mesh ← meshOfJson (← fld j "mesh")
+  let nvdim ← natOfJson (← fld j "nvdim")
+  let xs ← rats j "data"
+  if xs.length ≠ natProd (mesh.n ++ [nvdim]) then throw "ofield data length"
+  let vdims ← optStrsOfJson j "vdims"
+  let unit ← optStrOfJson j "unit"
+  pure { mesh, nvdim, arr := NDA.ofList (mesh.n ++ [nvdim]) xs 0, vdims, unit }
+
+def ofieldToJson (f : OField Rat) : Json :=
+  Json.mkObj [("mesh", meshToJson f.mesh), ("nvdim", .num (JsonNumber.fromNat f.nvdim)),
+    ("shape", natsJ f.arr.shape), ("data", ratsJ f.arr.toList),
+    ("vdims", optStrsJ f.vdims), ("unit", optStrJ f.unit)]
+
+def contentOfJson (j : Json) : R (Content Rat) := do
+  pure { base := ← rats j "base", step := ← rats j "step", nodes := ← nats j "nodes",
+         vd := ← natOfJson (← fld j "vd"), meshunit := ← strOfJson (← fld j "meshunit"),
+         values := ← rats j "values" }
+
+def contentToJson (x : Content Rat) : Json :=
+  Json.mkObj [("base", ratsJ x.base), ("step", ratsJ x.step), ("nodes", natsJ x.nodes),
+    ("vd", .num (JsonNumber.fromNat x.vd)), ("meshunit", .str x.meshunit), ("values", ratsJ x.values)]
+
+def sideOfJson (j : Json) : R (Option (List (String × Region))) :=
+  match fldOpt j "side" with
+  | none => pure none
+  | some s => do
+    let a ← arr s
+    let l ← a.toList.mapM fun e => do
+      let nm ← strOfJson (← fld e "name")
+      let r ← regionOfJson e
+      pure (nm, r)
+    pure (some l)
+
 def c09 (op : String) (j : Json) : Option (R Json) :=
   match op with
+  | "write" => some do
+      let f ← ofieldOfJson (← fld j "field")
+      let rep ← strOfJson (← fld j "rep")
+      let extend ← boolOfJson (← fld j "extend")
+      pure (resJ fileToJson (toOvf ieee f rep extend))
+  | "read" => some do
+      let F ← fileOfJson (← fld j "file")
+      let side ← sideOfJson j
+      let reserved ← match fldOpt j "reserved" with
+        | some r => listOf strOfJson r
+        | none => pure []
+      pure (resJ ofieldToJson (fromOvf ieee isWordC (fun s => reserved.contains s) F side))
+  | "refwrite" => some do
+      let x ← contentOfJson (← fld j "content")
+      let v2 ← boolOfJson (← fld j "v2")
+      let w ← natOfJson (← fld j "w")
+      pure (Json.mkObj [("ok", fileToJson (refWriter ieee v2 w x))])
+  | "refread" => some do
+      let F ← fileOfJson (← fld j "file")
+      pure (resJ contentToJson (refReader ieee F))
+  | "codec" => some do
+      let w ← natOfJson (← fld j "w")
+      let le ← boolOfJson (← fld j "le")
+      let vals ← rats j "vals"
+      pure (Json.mkObj [("bytes", listJ natsJ (vals.map (ieee.enc le w))),
+        ("back", ratsJ (vals.map fun x => ieee.dec le w (ieee.enc le w x)))])
+  | "decode" => some do
+      let w ← natOfJson (← fld j "w")
+      let le ← boolOfJson (← fld j "le")
+      let bs ← listOf (listOf natOfJson) (← fld j "bytes")
+      pure (Json.mkObj [("ok", ratsJ (bs.map (ieee.dec le w)))])
+  | "labels" => some do
+      let t ← strOfJson (← fld j "text")
+      pure (Json.mkObj [("ok", optStrsJ (recoverLabels isWordC t))])
+  | "unit" => some do
+      let t ← strOfJson (← fld j "text")
+      pure (Json.mkObj [("ok", optStrJ (recoverUnit t))])
+  | "dispatch" => some do
+      let e ← strOfJson (← fld j "ext")
+      let w := match writeKind e with | .ok "ovf" => "ok" | _ => "err"
+      let r := match readKind e with | .ok "ovf" => "ok" | _ => "err"
+      pure (Json.mkObj [("ok", strsJ [w, r])])
+  | "savesub" => some do
+      let m ← meshOfJson (← fld j "mesh")
+      pure (Json.mkObj [("ok", listJ (fun (p : String × Region) =>
+        (regionToJson p.2).setObjVal! "name" (.str p.1)) (saveSub m))])
   | _ => none
 
 end DFV.Drv
